@@ -95,3 +95,70 @@ def c17(chk):
     chk.sample(tables["codegen_paths"][3])
     chk.sample(tables["codegen_pipeline"][0])
     chk.exhaustive = True
+
+
+def identity_tables(chk):
+    tables = tlc_tables("AnemoIdentity.tla", "AnemoIdentity.cfg")   # evaluates AuthenticAsDialer/AsListener, HonestConnects
+    chk.states += sum(len(v) for v in tables.values())
+    chk.transitions += sum(len(v) for v in tables.values())
+    chk.parts.setdefault("tlc", []).append({"module": "AnemoIdentity.tla",
+                                            "assumptions": ["AuthenticAsDialer", "AuthenticAsListener", "HonestConnects", "NameMismatchRejected"],
+                                            "rows": {k: len(v) for k, v in tables.items()}})
+    return tables
+
+
+@prop("C01")
+def c01(chk):
+    chk.rule = ("cases = rows of the verifier tables (every certificate record: subject key, signer, name, algorithm, "
+                "validity, well-formedness x configuration x pin), adversary handshakes (SNI x certificate x proof key x "
+                "listener names), every single-byte mutation of a valid certificate, plus the identities handlers and "
+                "callers saw in recorded RPC runs; non-trivial = the presenter does not hold the key it claims, or the "
+                "certificate is not a plain honest one")
+    chk.assumptions = ["perfect cryptography in the symbolic model; ring / rustls / webpki are trusted as libraries",
+                       "the adversary holds only its own key"]
+    tables = identity_tables(chk)
+    path = vlib.write_json(os.path.join(vlib.WORK, "C01_tables.json"), tables)
+    summ = harness("replay-identity", table=path, stride=2 if quick(chk) else 1, full_mutations=0 if quick(chk) else 1,
+                   seed=chk.seed)
+    replay_check(chk, "identity", summ)
+    for k in ("id_client", "id_server", "id_advdial"):
+        for r in tables[k]:
+            c = r["cert"]
+            if not (c["subj"] == c["signer"] and c["alg"] == "ed25519" and c["validity"] == "ok" and c["wf"]
+                    and r.get("proof", c["subj"]) == c["subj"]):
+                chk.distinct.add(json.dumps(r, sort_keys=True))
+    chk.sample(tables["id_advdial"][5])
+    # adversary as listener (replayed certificate / own certificate) and pins: the C03 scenario
+    s3 = harness("c03", out=os.path.join(vlib.WORK, "C01_adv"), seed=chk.seed, runs=8 if quick(chk) else 100, jobs=8,
+                 files=4, lossy=0)
+    s3["args"] = {"lossy": 0}
+    trace_check(chk, "AnemoConnTrace.tla", "AnemoConnTrace.cfg", s3, label="advlisten")
+    # ExtLocal: the identity a handler / a caller sees is the connection's, whatever the message carries
+    s4 = harness("rpc", out=os.path.join(vlib.WORK, "C01_rpc"), mode="mix", faults=0, calls=60, seed=chk.seed,
+                 runs=6 if quick(chk) else 100, jobs=6, files=3)
+    s4["args"] = {"mode": "mix"}
+    trace_check(chk, "AnemoRpcTrace.tla", "AnemoRpcTrace.cfg", s4, label="extlocal")
+    sample_events(chk, s4, ("app.start",), n=1)
+    spec_mutant(chk, "no_signature_check", "AnemoIdentity.tla", "AnemoIdentity.cfg",
+                [("AnemoIdentity.tla", 'SigOk(c, proof) == c.alg = "ed25519" /\\ proof = c.subj', 'SigOk(c, proof) == c.alg = "ed25519"')],
+                workers=1)
+
+
+@prop("C14")
+def c14(chk):
+    chk.rule = ("cases = ordered pairs of (primary, optional alternate) name configurations over 3 names (144, both "
+                "directions by symmetry of the table) + adversarial dials (claimed name x certificate name x listener "
+                "names); non-trivial = the two configurations differ")
+    tables = identity_tables(chk)
+    path = vlib.write_json(os.path.join(vlib.WORK, "C14_tables.json"), tables)
+    summ = harness("replay-identity", table=path, stride=1 if not quick(chk) else 1, full_mutations=0, seed=chk.seed)
+    replay_check(chk, "names", summ)
+    for r in tables["id_pairs"]:
+        if r["d"] != r["l"]:
+            chk.distinct.add(json.dumps(r, sort_keys=True))
+    for r in tables["id_advdial"]:
+        chk.distinct.add(json.dumps(r, sort_keys=True))
+    chk.sample(tables["id_pairs"][17])
+    chk.exhaustive = True
+    spec_mutant(chk, "listener_ignores_name", "AnemoIdentity.tla", "AnemoIdentity.cfg",
+                [("AnemoIdentity.tla", "  /\\ c.san \\in listenerNames\n", "")], workers=1)
